@@ -1,4 +1,5 @@
 mod apisim;
+mod c03;
 mod dsl;
 mod exec;
 mod gen;
@@ -39,6 +40,7 @@ fn dispatch(args: &harness::Args) -> i32 {
     if let Some(path) = &args.replay {
         return match args.prop.as_str() {
             "C01" | "C02" | "C05" | "C18" | "C19" => props_tri::replay_cmd(args, path),
+            "C03" => c03::replay_cmd(path),
             "C04" | "C06" => opt::replay_cmd(path),
             "C11" => apisim::replay_cmd(path),
             "C12" => storesim::replay_cmd(path),
@@ -53,6 +55,7 @@ fn dispatch(args: &harness::Args) -> i32 {
     match args.prop.as_str() {
         "C01" => props_tri::run_c01(args),
         "C02" => props_tri::run_c02(args),
+        "C03" => c03::run_c03(args),
         "C04" => opt::run_c04(args),
         "C05" => props_tri::run_c05(args),
         "C06" => opt::run_c06(args),
